@@ -678,7 +678,10 @@ def _run_impl(case: dict) -> dict:
                 if not flags['started'] or flags['stopped'] or sconn.state == ConnectionState.UNINITIALIZED:
                     inv = 1
                 else:
-                    await client.searches.search('query')
+                    try:
+                        await client.searches.search('query')
+                    except Exception as e:      # a search cannot be sent: a failure when there is a session
+                        exe = 'search-error:' + type(e).__name__
             elif k == 'loss':
                 r = op[1]
                 if not connected or r == 'connect_failed' or (r in ('eof', 'read_error') and not reader_alive()):
@@ -874,6 +877,9 @@ def _monitor(case: dict, impl: dict) -> list[Violation]:
                 add('C16-exec-not-refused', f'execute() without a session was not refused (op #{i})', where)
             if had_session and row['exec'] != 'sent':
                 add('C16-exec-refused-with-session', f'execute() with a session was refused (op #{i})', where)
+        if op[0] == 'search' and row['exec'].startswith('search-error') and had_session:
+            add('C16-exec-refused-with-session', f'a search with a session could not be sent (op #{i}): '
+                f'{row["exec"][13:]}', where)
         # ---- M4: loss resets the server-derived state (a reconnect inside the event starts a new session: lossrec)
         if closed and stop_at is None and op[0] != 'lossrec':
             left = [n for n, v in (('users', row['u']), ('rooms', row['r']), ('distributed-parameters', row['p']),
